@@ -640,10 +640,15 @@ impl<'s, M: Matcher, S: Sink> Core<'s, M, S> {
             }
         }
         if let Some(non_matching) = self.matcher.non_matching_bytes() {
-            // If the line terminator is CRLF, we don't actually need to care
-            // whether the regex can match `\r` or not. Namely, a `\r` is
-            // neither necessary nor sufficient to terminate a line. A `\n` is
-            // always required.
+            // If the line terminator is CRLF, then a matcher that merely never
+            // matches `\n` is not enough: run over a whole buffer, it can
+            // still match inside of a line's terminator (`\r`, or the empty
+            // string between the `\r` and the `\n`), which is not part of the
+            // line. The slow line-by-line searcher strips the terminator
+            // before matching.
+            if self.config.line_term.is_crlf() {
+                return false;
+            }
             if non_matching.contains(self.config.line_term.as_byte()) {
                 return true;
             }
